@@ -180,10 +180,11 @@ def fl_key(flags):
 # one case = (toks as (cls, lexeme) list, entry, flags)
 
 class Case:
-    __slots__ = ("toks", "entry", "flags", "text", "origin", "expect")
+    __slots__ = ("toks", "entry", "flags", "text", "origin", "expect", "label")
 
-    def __init__(self, toks, entry, flags, origin, text=None, expect=None):
+    def __init__(self, toks, entry, flags, origin, text=None, expect=None, label=None):
         self.toks, self.entry, self.flags, self.origin = toks, entry, flags, origin
+        self.label = label      # with expect=False: why the text is known to be OUTSIDE the grammar
         self.text = gd.render(toks) if text is None else text
         self.expect = expect      # True: known derivation of the grammar under these flags
 
@@ -254,6 +255,20 @@ def check_case(ctx, c, real, ans, shrink=True):
             ctx.fail("derivation-rejected:%s:%s" % (c.entry, fl_key(c.flags)),
                      "a text derived from the grammar is rejected", detail(c, position=pos))
             ok = False
+    if c.expect is False:
+        # direct oracle, model-independent: this text is OUTSIDE the grammar by construction
+        if kind == "ok":
+            ctx.fail("outside-grammar-accepted:%s" % ":".join((c.label or c.origin).split(":")[:2]),
+                     "a text that is outside the grammar by construction is accepted (%s)" % (c.label or c.origin),
+                     detail(c, why=c.label))
+            ok = False
+        if ans is not None and "ok" in ans:
+            ctx.fail("corr:model-accepts-outside-grammar:%s" % (c.label or c.origin),
+                     "the Lean parser accepts a text that is outside the grammar by construction",
+                     detail(c, why=c.label), kind="correspondence")
+            ok = False
+        if not ok:
+            return False       # (reported above with a stable signature; no second report as accept-mismatch)
     if ans is not None:
         ia, ma = outcome_pair(real, ans)
         if ia != ma:
@@ -596,6 +611,53 @@ def _content_sensitive(z):
     return None
 
 
+def const_position_cases(ctx):
+    """Value[Const] positions: a variable (bare, or nested in a list / object literal) in a default value, in a
+    directive on a variable definition, or in ANY type-system directive is outside the grammar — for all flag
+    combinations; the same text with a constant is a derivation when the flags enable what it uses."""
+    cases = []
+    seen_controls = set()
+    for label, variant, text, needs_ts, control in gd.const_variable_mutants():
+        fragvar = label.startswith("fragment-variable")
+        for fl in FLAG_COMBOS:
+            cases.append(Case(gd.tokens_of_text(text), "document", fl, "const-variable", text, False,
+                              "const-variable:%s:%s" % (label, variant)))
+            key = (control, fl_key(fl))
+            if key not in seen_controls:
+                seen_controls.add(key)
+                derivable = (fl["allow_type_system"] or not needs_ts) and \
+                            (fl["experimental_fragment_variables"] or not fragvar)
+                cases.append(Case(gd.tokens_of_text(control), "document", fl, "const-control", control,
+                                  True if derivable else None))
+    rng = ctx.rng
+    for _ in range(ctx.n(60, 400)):
+        fv = rng.random() < 0.5
+        toks = gd.gen_const_violation(rng, type_system=rng.random() < 0.7, fragment_variables=fv, size=rng.randint(1, 3))
+        if toks is None:
+            continue
+        text = gd.render(toks, rng)
+        for fl in rng.sample(FLAG_COMBOS, 2):
+            cases.append(Case(toks, "document", fl, "const-variable-generated", text, False,
+                              "const-variable:generated"))
+    return cases
+
+
+def const_position_bytes(ctx):
+    """the same mutants submitted as UTF-8 bytes (direct oracle only)"""
+    for label, variant, text, needs_ts, control in gd.const_variable_mutants():
+        for fl in (FLAG_COMBOS[0], FLAG_COMBOS[3], FLAG_COMBOS[6]):
+            r = real_parse(text.encode("utf-8"), "document", fl)
+            ctx.count()
+            ctx.stat("origin=const-variable-bytes")
+            if r[0] == "ok":
+                c = Case([], "document", fl, "const-variable-bytes", text, False, "const-variable:%s:%s" % (label, variant))
+                ctx.fail("outside-grammar-accepted:const-variable:%s" % label,
+                         "a variable in a Const position is accepted (bytes input)", detail(c, bytes=True))
+            elif r[0].startswith("internal:"):
+                ctx.fail("%s:const-variable-bytes" % r[0], "non-syntax exception on bytes input",
+                         {"part": PART, "text": text, "entry": "document", "flags": fl, "bytes": True})
+
+
 def deep_nesting_probe(ctx):
     """the single named probe of the interpreter's recursion budget (P1)"""
     for label, text, entry in (("selection-sets", "{a" * 1200 + "}" * 1200, "document"),
@@ -633,6 +695,10 @@ def run(ctx):
     cases = corpus_cases()
     for c, real, ans in evaluate(ctx, cases):
         check_case(ctx, c, real, ans)
+    # 0b. Const positions (variables where Value[Const] is required), text and bytes
+    for c, real, ans in evaluate(ctx, const_position_cases(ctx)):
+        check_case(ctx, c, real, ans, shrink=False)
+    const_position_bytes(ctx)
     # 1. derivations
     der = derivation_cases(ctx, ctx.n(500, 4000))
     for c, real, ans in evaluate(ctx, der):
@@ -703,8 +769,10 @@ def replay(ctx, data):
         text, entry = PROBES[d["probe"]]
         return not real_parse(text, entry, FLAG_COMBOS[0])[0].startswith("internal:")
     text, entry, flags = d["text"], d.get("entry", "document"), d.get("flags") or FLAG_COMBOS[0]
-    real = real_parse(text, entry, flags)
+    real = real_parse(text.encode("utf-8") if d.get("bytes") else text, entry, flags)
     if real[0].startswith("internal:"):
+        return False
+    if d.get("why") and real[0] == "ok":      # a text that is outside the grammar by construction
         return False
     if real[0] == "syntax" and not (0 <= real[1] <= len(text)):
         return False
